@@ -416,8 +416,12 @@ fn range_exceeds_bounds<const D: usize>(
         match &range[d] {
             None => continue,
             Some(range) => {
-                let range_end = range.start + range.length;
-                match range_end > end {
+                // a range whose end isn't even representable certainly exceeds the bounds
+                let exceeds = match range.start.checked_add(range.length) {
+                    Some(range_end) => range_end > end,
+                    None => true,
+                };
+                match exceeds {
                     true => return true,
                     false => (),
                 };
